@@ -445,7 +445,22 @@ func lastName(s string) string {
 }
 
 func (E *Engine) nondet(name string) bool {
-	return strings.HasPrefix(name, "time.Now") || strings.HasPrefix(name, "time.Since") || strings.Contains(name, "rand.")
+	if strings.HasPrefix(name, "time.Now") || strings.HasPrefix(name, "time.Since") || strings.Contains(name, "rand.") {
+		return true
+	}
+	// atomics: what a Load (Swap, Add, CompareAndSwap ...) returns is not a function of the pointer alone -
+	// a Store in between, here or in another goroutine, changes it
+	if strings.Contains(name, "sync/atomic.") || strings.Contains(name, "go.uber.org/atomic.") {
+		return true
+	}
+	// objects with hidden state that their own methods change: what String / Sum / Len ... return is not a
+	// function of the receiver's identity
+	for _, p := range []string{"(*strings.Builder).", "(*bytes.Buffer).", "(hash.Hash", "(*github.com/cespare/xxhash/v2.Digest).", "istio.io/istio/pkg/util/hash."} {
+		if strings.Contains(name, p) {
+			return true
+		}
+	}
+	return false
 }
 
 var noEffectPkgs = []string{
@@ -790,6 +805,13 @@ func (E *Engine) external(fr *Frame, st *State, fn *ssa.Function, name string, a
 		E.note("calls into " + pkg.Path() + " that sort or edit a slice in place forget the contents of every array of that element type; results are unconstrained")
 		E.havocKeys(st, ws, func(ssa.Value) (*Term, bool) { return nil, false })
 		return E.freshResults(fr, st, "ret$"+lastName(fn.Name()), res)
+	}
+	if pkg != nil && pkg.Path() == "maps" {
+		switch originOf(fn).Name() {
+		case "Copy", "DeleteFunc", "Insert":
+			// the standard maps package's in-place functions write the map they are handed
+			return E.unknownCall(fr, st, "external "+name, res, instr, args)
+		}
 	}
 	if E.isNoEffect(name, pkg) {
 		E.note("calls into " + pkg.Path() + " have no effect on verified state and return a function of their arguments (E1)")
